@@ -1,6 +1,7 @@
 package main
 
 import (
+	"strings"
 	"bytes"
 	"encoding/json"
 	"fmt"
@@ -485,6 +486,43 @@ func runC04(c *rt.Ctx) {
 		c04Apply(0)
 	})
 	c.Require("write-switches-x-read-switches", 56)
+	// a long-lived process has refused millions of inputs before it marshals and unmarshals the next size: over-long ones
+	// (a slot or a counter taken before the length check and given back only behind it), malformed ones
+	c.Serial("after-millions-of-refused-inputs", func(w *rt.W) {
+		long := strings.Repeat("9", 200)
+		longB := []byte(long)
+		n := 0
+		for i := 0; i < 4500000; i++ {
+			var err error
+			if i%2 == 0 {
+				_, err = size.DefaultParser(long, 0)
+			} else {
+				_, err = size.DefaultParser(longB, size.DefaultRule)
+			}
+			if err != nil {
+				n++
+			}
+		}
+		for i := 0; i < 300000; i++ {
+			if _, err := size.DefaultParser("12 kiB", 0); err != nil {
+				n++
+			}
+			var z size.Size
+			if err := z.UnmarshalJSON([]byte(`{"value":5`)); err != nil {
+				n++
+			}
+		}
+		w.Eval(int64(n))
+		for _, s := range []uint64{0, 1, 1000, 1024, 1536, 123456789, 1 << 40, 15 << 60, 18446744073709551615} {
+			for cfg := 0; cfg < 8; cfg += 3 {
+				restore := c04Apply(cfg)
+				c04Case(w, s, cfg, true)
+				restore()
+			}
+		}
+		w.ClassN("refused-inputs-before-the-round-trips", int64(n))
+	})
+	c.Require("refused-inputs-before-the-round-trips", 5000000)
 	c.Serial("same-number-other-unit", func(w *rt.W) {
 		for _, m := range []uint64{999, 1000, 1500, 12345, 1000000} {
 			for ka := uint(0); ka <= 50; ka += 10 {
